@@ -697,6 +697,8 @@ class Meta(InProc, Contract):
 
     def ensures(self, cx, S, result):
         shape, dtype, ndim = S.announced
+        if self.rejected:
+            return [('rejected-when-constructing-or-announcing', z3.BoolVal(False))]
         if not isinstance(result, NArr):
             raise Unsupported('evaluation delivered %r' % (result,))
         if not isinstance(shape, tuple) or not all(isinstance(l, Len) for l in shape):
@@ -1062,7 +1064,7 @@ POINTWISE = {
     'Real': (('arg',), [(3,)]), 'Imag': (('arg',), [(3,)]), 'Conjugate': (('arg',), [(3,)]),
     'BoolToInt': (('arg',), [(0,)]), 'IntToFloat': (('arg',), [(1,)]), 'FloatToComplex': (('arg',), [(2,)]),
     'Sin': (('arg',), [(2,), (3,)]), 'Exp': (('arg',), [(2,), (3,)]), 'Reciprocal': (('arg',), [(2,), (3,)]),
-    'ArcTan2': (('x', 'y'), [(2, 2)]),
+    'ArcTan2': (('x', 'y'), [(a, b) for a in range(3) for b in range(3)]),
 }
 # FloorDivide of complex operands is ACCEPTED by FloorDivide.dtype (Mod rejects it) but numpy has no complex floor_divide: evaluation
 # raises TypeError.  Candidate defect (notes/C06-c06b.md); the configuration is parked so that the check stays green.
@@ -1101,6 +1103,7 @@ def meta_contracts():
     cs += [Einsum(args=a, out=o) for a, o in (
         (((0, 1), (1,)), (0,)), (((0, 1), (1, 2)), (0, 2)), (((0,), (0,)), (0,)), (((0, 1),), (1, 0)), (((0, 1, 2), (2, 1)), (0,)),
         (((0,), (1,), (2,)), (2, 0, 1)), (((0, 0),), (0,)), (((0, 1), (0, 1)), ()))]
+    cs += [TakeBadIndex(rank=1, irank=1)]
     cs += [Inflate(rank=r, drank=d) for r, d in ((1, 0), (1, 1), (2, 1), (2, 2), (3, 1), (3, 2), (0, 0))]
     cs += _ranks(Diagonalize, (1, 2))
     cs += [Polyval(prank=a, crank=b, nvars=n) for a, b, n in ((1, 1, 1), (2, 1, 2), (1, 2, 0), (2, 2, 3), (3, 1, 2))]
@@ -1122,9 +1125,48 @@ def contracts():
     return cs
 
 
-TRUSTED = []
-ASSUMPTIONS = []
-NOT_COVERED = []
+TRUSTED = [
+    'C06b: numpy METADATA axioms of pyvc/npshape.py (shape and result kind of transpose, moveaxis, einsum incl. the diagonal / broadcast label rules, sum/prod/any/all, '
+    'take, repeat, ndarray(buffer..), reshape, arange, nonzero, cumsum, searchsorted, argsort, choose, linalg.det/inv, nutils numeric.inv, empty/empty_like, not_equal(out=), '
+    'astype, basic + single-index-array indexing, stores, broadcasting of + - *, the element-wise kind tables UFUNC1/UFUNC2, numpy.array(dtype=)); each is cross-checked '
+    'against the real numpy by running the MODEL CODE on random concrete metadata (native/axioms_c06b.py)',
+    'C06b: nutils_poly shapes: eval_outer(coeffs, values), MulPlan(vars, dl, dr)(cl, cr), GradPlan(nvars, d)(c) in terms of the uninterpreted ncoeffs; '
+    'PolyDegree / PolyNCoeffs nodes evaluate to poly.degree / poly.ncoeffs (cross-checked with ncoeffs = C(d+n, n))',
+    'C06b: `_pyast` expression constructors are interpreted EAGERLY (an expression object is the value it would evaluate to): the generated source text, its '
+    'ordering into blocks and the block builder are C16/C02 matters; builder.compile / compile_with_out / new_empty_array_for_evaluable / array_add_at are used by their '
+    'specification (numpy.copyto / numpy.add(out=) / numpy.empty of the evaluated shape / numpy.add.at)',
+    'C06b: a 0-d integer array (length, offset, loop index) behaves like the Python int it holds in shape tuples, slices, comparisons and + - *; arithmetic on scalar '
+    'integer NODES (`a*b`, `n+1`) evaluates to the same arithmetic on their values (value side: C06 ranges, C01)',
+    'C06b: induction hypothesis of the DAG argument: every dependency delivers an array of the shape and kind it announces (this contract at the child)',
+    'C06b: dependence on arguments: the value of a node is a function of the values of its dependencies (evalf / generated code receive nothing else), so the set of '
+    'arguments a node depends on is contained in the union over its dependencies; a Loop binds its own index (pyvc/symset.py: sets of objects by identity, exact connectives)',
+    'C06b: DataClass equality is structural: `_LoopIndex(loop_id, length)` built by Loop.index equals the index node the body refers to',
+]
+ASSUMPTIONS = [
+    'C06b: operand ranks <= 3, <= 3 dependencies / einsum operands (bounded structure); axis lengths, kinds and argument sets arbitrary',
+    'C06b: run-time well-formedness the constructors only test with `not _certainly_different` (never provable for abstract lengths): TakeDiag/Determinant/Inverse over equal '
+    'trailing lengths; Unravel sh1*sh2 == func.shape[-1]; Inflate dofmap.shape == trailing func.shape; Choose choices.shape[:-1] == index.shape; PolyMul equal leading '
+    'shapes; SearchSorted/UniqueInverse sorter shape; evaluation raises or broadcasts otherwise',
+    'C06b: AssertEqual(a, b) delivers a value only when a == b (Einsum, Pointwise shapes): where evaluation delivers, the lengths agree',
+    'C06b: _TakeSlice: offset + length <= func.shape[-1]; _Get: index in range; LoopConcatenate: 0 <= start <= stop <= concat_length and stop - start == func.shape[-1] '
+    '(what loop_concatenate establishes through _SizesToOffsets; that construction itself is NOT under contract)',
+    'C06b: LoopSum is constructed by loop_sum only (it passes func.shape as the announced shape); Polyval: points.shape[-1] is a constant (asserted)',
+    'C06b: index VALUES are in range where numpy would raise IndexError for value reasons (Take, Inflate dofmap, Choose): the value side is C02',
+    'C06b: Argument shapes are constant (Argument.arguments announces only itself, not the arguments of its lengths)',
+    'C06b: Python asserts enabled (no -O): constructor assertions reject',
+]
+NOT_COVERED = [
+    'C06b: node classes without a metadata contract: Constant, Zeros, Singular, Guard, Sampled, Eig, ArrayFromTuple, Orthonormal, Assemble, Transform*, Monomial, Elemwise, '
+    'CompressIndices, Multiply/Add/Power/Sign (Pointwise-like, own shape logic), WithDerivative shape, NormDim, InRange, Argument._compile (C13)',
+    'C06b: ranks > 3, Einsum with more than 3 operands, Inflate with dofmap rank > 2',
+    'C06b: loop_concatenate / _SizesToOffsets value logic (start/stop/concat_length consistency is an assumption)',
+    'C06b: that the generated source text evaluates to what the eager interpretation computes (C02), _compile_with_out fusion paths other than the ones the node itself takes, '
+    '_optimized_for_numpy replacements',
+    'C06b: function.Array subclasses (every constructor that fills the shape/dtype/arguments tables: C07 shapes, C13 arguments); lowering agreement '
+    '(debug_flags.lower assertions); clashing arguments are rejected by function._join_arguments (C13)',
+    'C06b: PARKED (fail on the unchanged tree, candidate defects, notes/C06-c06b.md): FloorDivide of complex operands announces complex but numpy has no such loop; '
+    'function.Array.__init__ accepts negative lengths and arbitrary dtype objects',
+]
 
 
 # ---------------------------------------------------------------------------------------------------------------------
